@@ -157,6 +157,49 @@ theorem after_stop_winds_down (P : Prog) (s : St) (hI : Inv s) (hd : s.mainDone 
     have := hI.noLeak
     simp [this, St.mainDone, hd.1, hd.2]
 
+/-- **no dump is written after `stop()` has returned** (kernprof writes the final statistics right after `stop()`; a periodic
+    dump still in flight would overwrite them with older ones — finding F-C06e): for every well-formed program, once the main
+    thread is through `stop()`, whatever the scheduler does, the number of dumps written stays what it was -/
+theorem no_dump_after_stop (P : Prog) (h : P.wf = true) (sched more : List Choice)
+    (hd : (exec P (init P) sched).mainDone = true) :
+    (exec P (exec P (init P) sched) more).sh.dumps = (exec P (init P) sched).sh.dumps := by
+  have hP := wf_spec P h
+  have hI := exec_inv P hP sched (init P) (init_inv P h)
+  generalize exec P (init P) sched = s at hd hI
+  induction more generalizing s with
+  | nil => rfl
+  | cons c r ih =>
+    have hwd := after_stop_winds_down P s hI hd c
+    have hI' := step_inv P hP s hI c
+    have hd' := hd
+    simp only [St.mainDone, Bool.and_eq_true, List.isEmpty_iff] at hd'
+    have hst : s.sh.core.stopped = true := by
+      rcases hI.willSeal with hs | ⟨i, hi, _⟩
+      · exact hs
+      · rw [hd'.2] at hi; cases hi
+    have hstep : (step P s c).sh.dumps = s.sh.dumps := by
+      cases c with
+      | main => simp [step, hd'.1, hd'.2]
+      | run k =>
+        simp only [step]
+        split
+        · rename_i i rest hR
+          have hsi : i.safe = true := hI.safe i (by
+            simp only [St.pending, List.mem_append]
+            exact Or.inr (mem_flatten_of_getElem? s.runs k _ hR i (List.mem_cons_self ..)))
+          have := (safe_spec i hsi s.sh.core).2.2 hst
+          simp only [execInstr, this, Nat.add_zero]
+        · rfl
+      | fireCur =>
+        simp only [step]
+        split <;> rfl
+      | fireLeaked =>
+        simp only [step]
+        split <;> rfl
+    simp only [Timer.exec, List.foldl_cons] at ih ⊢
+    rw [← hstep]
+    exact ih (step P s c) hwd.1 hI'
+
 /-- … for the class in the tree -/
 theorem kernprof_timer_quiet (sched : List Choice)
     (hd : (exec Generated.repeatedTimer (init Generated.repeatedTimer) sched).mainDone = true) :
@@ -171,6 +214,20 @@ def legacyTimer : Prog :=
     stop := [.act .cancel, .act (.setRunning false)] }
 
 theorem legacy_not_wf : legacyTimer.wf = false := by decide
+
+/-- the class after the repair of F-C07d and before that of F-C06e: the dump itself is outside the lock -/
+def lockedTimerDumpOutside : Prog :=
+  { ctor := [.atomic [([.notRunning, .notStopped], [.nop, .newTimer, .startTimer, .setRunning true])]],
+    run := [.act (.setRunning false), .atomic [([.notRunning, .notStopped], [.nop, .newTimer, .startTimer, .setRunning true])],
+            .act .dump],
+    stop := [.atomic [([], [.setStopped true, .cancel, .setRunning false])]] }
+
+/-- **F-C06e witness**: the timer fires, its thread re-arms, `stop()` runs to its end (kernprof now writes the final file) — and
+    only then does the timer thread write its dump (replayed on the real code: `corpus/C06/f-c06e-stale-dump.py`) -/
+theorem dump_after_stop_witness :
+    let s1 := exec lockedTimerDumpOutside (init lockedTimerDumpOutside) [.main, .fireCur, .run 0, .run 0, .main]
+    let s2 := exec lockedTimerDumpOutside s1 [.run 0]
+    s1.mainDone = true ∧ s1.sh.dumps = 0 ∧ s2.sh.dumps = 1 ∧ lockedTimerDumpOutside.wf = false := by decide
 
 /-- **F-C07d witness**: `stop()` arriving after the timer fired and before `_run` re-armed cancels the timer that has
     already fired; the new one is armed afterwards and nobody cancels it — `stop()` has returned and a timer is live
@@ -188,7 +245,13 @@ theorem legacy_race_witness :
 example :
     let sched : List Choice := [.main, .fireCur, .run 0, .main, .run 0, .run 0]
     let s := exec Generated.repeatedTimer (init Generated.repeatedTimer) sched
-    s.mainDone = true ∧ s.quiet = true ∧ s.sh.dumps = 1 ∧ s.runs = [[]] := by decide
+    s.mainDone = true ∧ s.quiet = true ∧ s.sh.dumps = 0 ∧ s.runs = [[]] := by decide
+
+/-- … and one in which the periodic dump is written before `stop()` arrives -/
+example :
+    let sched : List Choice := [.main, .fireCur, .run 0, .run 0, .run 0, .main]
+    let s := Timer.exec Generated.repeatedTimer (init Generated.repeatedTimer) sched
+    s.mainDone = true ∧ s.quiet = true ∧ s.sh.dumps = 1 := by decide
 
 end timer
 
